@@ -139,6 +139,21 @@ func main() {
 														d.Run(src, p.side, drivers.Cfg{Extended: ext}, &res)
 														return judge(t, d, &res, src, must, upper, broken, hdrEnd)
 													})
+													if rsv != 0 && !ext && !d.Hidden && end == "continues" {
+														// it is the endpoint *state* that says whether an extension was negotiated: a
+														// reader that was handed receive extensions (here one that lets every header
+														// pass as it is) but whose state does not say "extended" still owes the refusal
+														t.Do(func() string {
+															return fmt.Sprintf("%s ext=false but Reader.Extensions set, prefix=[%s] offender={%v} driver=%s chunk=%d", p.side, streams.Describe(p.frames), h, d.Name, ch)
+														}, func() *explore.Fail {
+															src := env.NewSrc(data)
+															src.Policy = env.FixedChunk(ch)
+															var res drivers.Result
+															pass := wsutil.RecvExtensionFunc(func(hd ws.Header) (ws.Header, error) { return hd, nil })
+															d.Run(src, p.side, drivers.Cfg{Extensions: []wsutil.RecvExtension{pass}}, &res)
+															return judge(t, d, &res, src, must, upper, broken, hdrEnd)
+														})
+													}
 												}
 											}
 										}
